@@ -76,6 +76,7 @@ type Ev struct {
 	// transfer
 	BalFromBefore, BalToBefore, BalFromAfter, BalToAfter *big.Int
 	Digest                                               string // state digest taken by the wrapper
+	CodeLen                                              int    // length of the recipient's code at a transfer
 	Seq                                                  int
 }
 
